@@ -11,6 +11,7 @@ from sismic import exceptions as sx
 
 ID = 'C08'
 LEVEL = 'fault_enumeration'
+RUN_LIMIT_CPU_S = 600     # one run enumerates hundreds of fault positions in the thorough tier
 BUDGET = {'quick': 25, 'thorough': 300}
 BLOCK = 10
 STREAM_ORDER = ['ops', 'guards', 'faults', 'chart', 'cfg']
